@@ -220,6 +220,34 @@ func (c *Checker) afterCall(x *callCtx) {
 	if !ok && x.msg != nil && x.ann.kind == "deliver" && x.msg.Fn == FnHandOver && x.fault < 0 && strings.HasPrefix(x.res.Status, "err:") {
 		c.report(x, "C10", "the create-role hand-over message emitted for %x (arguments %x) is refused on its destination shard: %s", x.msg.Dest, x.msg.Args, x.res.Status)
 	}
+	// C08 / C10: "wrong NFT on destination" is the answer to ONE situation - the destination holds the same (token, nonce)
+	// with another hash (or holds metadata while nothing comes with the item); mutable metadata (attributes, URIs) and
+	// an empty hash on both sides are not a reason to refuse what the sender half has already debited
+	if x.res.Status == "err:WrongNFTOnDestination" && x.fault < 0 && (x.call.Fn == FnNFTTransfer || x.call.Fn == FnMultiTransfer) {
+		if sh := shapeOf(c.w, x.call); sh.ok && c.w.Present(x.call.Shard, sh.dest) {
+			mismatch := false
+			for _, it := range sh.items {
+				if it.nonce == 0 {
+					continue
+				}
+				had := c.cache.decode(x.pre.value(sh.dest, it.key())).Meta()
+				var incoming *esdt.MetaData
+				if it.payload != nil {
+					incoming = it.payload.Meta()
+				} else {
+					incoming = c.cache.decode(x.pre.value(x.call.Caller, it.key())).Meta()
+				}
+				if had != nil && (incoming == nil || !bytes.Equal(had.Hash, incoming.Hash)) {
+					mismatch = true
+				}
+			}
+			if !mismatch {
+				for _, p := range []string{"C08", "C10"} {
+					c.report(x, p, "%s to %x is refused as 'wrong NFT on destination' although no item meets a holding of the same nonce with another hash", x.call.Fn, sh.dest)
+				}
+			}
+		}
+	}
 	if !ok {
 		if strings.HasPrefix(x.res.Status, "shape:") {
 			c.expected = c.actualTotals() // no rollback happened; resynchronise
@@ -310,6 +338,7 @@ func (c *Checker) checkEmittedData(x *callCtx) {
 				fn, args, err := callParser.ParseData(string(t.Data))
 				if err != nil {
 					c.report(x, "C10", "emitted data %q does not parse: %v", t.Data, err)
+					c.report(x, "C12", "the built-in function's own encoder emitted %q, which the call-arguments parser rejects: %v", t.Data, err)
 					continue
 				}
 				if fn != sh.attFn || !sameArgs(args, sh.attArgs) {
@@ -320,6 +349,7 @@ func (c *Checker) checkEmittedData(x *callCtx) {
 			fn, args, err := callParser.ParseData(string(t.Data))
 			if err != nil {
 				c.report(x, "C10", "emitted data %q does not parse: %v", t.Data, err)
+				c.report(x, "C12", "the built-in function's own encoder emitted %q, which the call-arguments parser rejects: %v", t.Data, err)
 			} else if !builtinSet[fn] {
 				c.report(x, "C10", "emitted data %q names %q, not a built-in function", t.Data, fn)
 			} else if IsTransferFn(x.call.Fn) && sh.ok {
